@@ -96,7 +96,7 @@ func c09Workload(r *Run, rounds int, shareData bool, mutateFiles bool) (calls in
 	kinds := []string{"render", "renderfile", "renderstring", "vuerender", "basestring", "sharedstring", "sharedfile"}
 	sharedTpl := map[string]vuego.Template{}
 	lfs := &lockedFS{m: c10FS()}
-	base := vuego.NewFS(lfs)
+	base := c10Engine(lfs)
 	// expected results: each call alone on a fresh engine
 	expect := map[string][2]any{}
 	var shared map[string]any
@@ -111,7 +111,7 @@ func c09Workload(r *Run, rounds int, shareData bool, mutateFiles bool) (calls in
 			if shareData && strings.HasSuffix(p.name, "/1") || shareData && strings.HasSuffix(p.name, "/2") {
 				continue
 			}
-			fresh := vuego.NewFS(&lockedFS{m: c10FS()})
+			fresh := c10Engine(&lockedFS{m: c10FS()})
 			call := c09Call{kind: k, prog: p}
 			if strings.HasPrefix(k, "shared") {
 				d := any(p.data())
@@ -168,6 +168,42 @@ func c09Workload(r *Run, rounds int, shareData bool, mutateFiles bool) (calls in
 		}(g)
 	}
 	wg.Wait()
+	// cold starts: the moment a template (and every component it reaches) is first loaded, parsed and cached — a NEW engine per round, every
+	// goroutine released at once onto pages that include components, nested components and shorthand component tags
+	coldPages := []string{"shorthand", "nest", "inc", "slotpage", "once"}
+	coldRounds := rounds / 5
+	for round := 0; round < coldRounds; round++ {
+		eng := c10Engine(&lockedFS{m: c10FS()})
+		page := coldPages[round%len(coldPages)]
+		var prog c10Prog
+		for _, p := range progs {
+			if p.name == page+"/0" {
+				prog = p
+			}
+		}
+		want, ok := expect["render|"+prog.name]
+		if !ok {
+			continue
+		}
+		start := make(chan struct{})
+		var cw sync.WaitGroup
+		for g := 0; g < n; g++ {
+			cw.Add(1)
+			go func() {
+				defer cw.Done()
+				<-start
+				out, e := c09Do(eng, c09Call{kind: "render", prog: prog}, shared)
+				mu.Lock()
+				calls++
+				if (out != want[0] || e != want[1]) && len(mismatches) < 20 {
+					mismatches = append(mismatches, fmt.Sprintf("cold start of %s: got %q/%v alone %q/%v", prog.name, out, e, want[0], want[1]))
+				}
+				mu.Unlock()
+			}()
+		}
+		close(start)
+		cw.Wait()
+	}
 	return
 }
 
